@@ -169,6 +169,43 @@ theorem explicit_name_wins_any_interpolation (w : World) (opts : List Opt) (inte
         simp [loptsOf, hc]
   · cases h
 
+/-- **name_decision with `WithInterpolation` in play** (the precedence clause of the property for both positions of
+    the switch): a successful `LoadProject` has the name `Spec.decide` selects from the four sources — explicit request,
+    `COMPOSE_PROJECT_NAME` of the project environment, the `name:` of the last selected file that sets one
+    (interpolated, or as written under `WithInterpolation(false)`; normalised), the project directory — over the
+    config files the options selected -/
+theorem name_decision_any_interpolation (w : World) (o : PO) (skip : Bool) (r : Loaded) (h : loadX w o skip = .ok r) :
+    ∃ files, o.configs ≠ [] ∧ readConfigs w o.configs = .ok files ∧
+      Spec.decide (sourcesOfX w o files skip) = .name r.name := by
+  unfold loadX at h
+  split at h
+  · cases h
+  · rename_i c cs hc
+    split at h
+    · cases h
+    · rename_i files hf
+      refine ⟨files, by rw [hc]; exact List.cons_ne_nil _ _, hf, ?_⟩
+      obtain ⟨h1, h2, _, _⟩ := loadL_ok_inv files (some o.env) (loptsOf w o skip) w.probe r h
+      have ha := projectNameL_agrees_cli w o files skip
+      simp only [Option.getD_some] at h1
+      rw [h1] at ha
+      cases hd : Spec.decide (sourcesOfX w o files skip) with
+      | name n => rw [hd] at ha; have := ha.1; cases this; rfl
+      | rejected => rw [hd] at ha; cases ha
+      | failed => rw [hd] at ha; rcases ha with ha | ha <;> cases ha
+      | noName => rw [hd] at ha; exact absurd (Except.ok.inj ha) h2
+
+/-- … and it is complete for rejection: the specification says `rejected` (an explicit name or a
+    `COMPOSE_PROJECT_NAME` that is not in the form) ⇒ `invalidName`, with or without interpolation -/
+theorem name_rejected_any_interpolation (w : World) (o : PO) (files : List (List (Option Str))) (skip : Bool)
+    (hd : Spec.decide (sourcesOfX w o files skip) = .rejected) :
+    loadL files (some o.env) (loptsOf w o skip) w.probe = .error .invalidName := by
+  have ha := projectNameL_agrees_cli w o files skip
+  rw [hd] at ha
+  unfold loadL
+  simp only [Option.getD_some]
+  rw [show projectNameL files o.env (loptsOf w o skip) = .error .invalidName from ha]
+
 /-- **the decision of the loader entry is the specification's**: with the imperatively set name as the explicit
     request and the name that was not set imperatively in the place of the directory name, `loader.projectName`
     returns what `Spec.decide` selects — the `name:` of the last file that sets one, interpolated (or as written
@@ -221,6 +258,12 @@ example : (loadL [] none { name := "d".toList, skipInterp := true } "$COMPOSE_PR
 -- the hypotheses of `loader_entry_imperative_invalid_rejected` / `loader_entry_decision`
 example : ("Req".toList ≠ []) ∧ validName "Req".toList = false := by decide
 example : Spec.decide (lsources exF [("X".toList, "_".toList)] { name := "My Dir".toList }) = .name "mydir".toList := by decide
+-- through the cli: the second file says `name: $X`; with interpolation the OS value, without it the text itself
+example : nameOf (runX (mkW ["X=Val"] g12 "f1".toList "$X".toList "d".toList) [.withOsEnv] []) = some "val" := by decide
+example : nameOf (runX (mkW ["X=Val"] g12 "f1".toList "$X".toList "d".toList) [.withOsEnv] [true, false]) = some "x" := by decide
+-- … and the explicit name / COMPOSE_PROJECT_NAME still come first
+example : nameOf (runX (mkW ["COMPOSE_PROJECT_NAME=os"] g12 "f1".toList "$X".toList "d".toList) [.withOsEnv] [false]) = some "os" := by decide
+example : errOf (runX (mkW ["COMPOSE_PROJECT_NAME=O.s"] g12 "f1".toList "$X".toList "d".toList) [.withOsEnv] [false]) = some .invalidName := by decide
 -- `WithInterpolation`: the last call decides
 example : interpFlag [false, true] = true ∧ interpFlag [true, false] = false ∧ interpFlag [] = true := by decide
 
